@@ -750,13 +750,14 @@ def unpack_dataclass(spec: ValueSpec) -> Optional[Expression]:
         )
         cls_alias = clean_id(type_name(spec.origin_type))
         if spec.builder.is_nailed:
-            spec.builder.ensure_object_imported(spec.origin_type, cls_alias)
+            cls_alias = spec.builder.ensure_object_imported(
+                spec.origin_type, cls_alias
+            )
             return f"{cls_alias}.{method_name}({method_args})"
         else:
-            method_name_alias = f"{cls_alias}_{method_name}"
-            spec.builder.ensure_object_imported(
+            method_name_alias = spec.builder.ensure_object_imported(
                 getattr(spec.attrs, method_name),
-                method_name_alias,
+                f"{cls_alias}_{method_name}",
             )
             return f"{method_name_alias}({method_args})"
 
@@ -1290,7 +1291,9 @@ def unpack_collection(spec: ValueSpec) -> Optional[Expression]:
         )
     elif ensure_generic_mapping(spec, args, collections.defaultdict):
         spec.builder.ensure_module_imported(collections)
-        default_type = type_name(args[1] if args else None)
+        default_type = (
+            spec.builder.get_type_name_identifier(args[1]) if args else "None"
+        )
         return (
             f"collections.defaultdict({default_type}, "
             f"{{{inner_expr(0, 'key')}: "
